@@ -112,6 +112,18 @@ def enumerate_paths(body, is_target, limit=4000):
                 nm = strip_generics(callee_name(t) or "?")
                 a, p = _canon(G.Val("call", nm, [G.describe(body, x) for x in t["args"]]))
             env[t["dest"]["l"]] = ("lit", a, p) if a is not None else None
+            # `x.is_some()` / `x.is_none()` on a value whose variant is known on this path
+            nm0 = strip_generics(callee_name(t) or "?")
+            if nm0.endswith(("Option::is_some", "Option::is_none")) and t["args"]:
+                ap0 = op_place(t["args"][0])
+                if ap0 is not None and not ap0["p"]:
+                    src0 = ap0["l"]
+                    sd0 = body.single_def(src0)
+                    if sd0 and sd0[1] != "term" and sd0[2]["k"] in ("ref", "rawptr") and not sd0[2]["place"]["p"]:
+                        src0 = sd0[2]["place"]["l"]
+                    kd0 = env.get("disc:%d" % src0)
+                    if kd0 is not None:
+                        env[t["dest"]["l"]] = ("const", (kd0 == 1) == nm0.endswith("is_some"))
         if t["k"] == "call" and not t["dest"]["p"]:
             # `?` on a value whose variant is known on this path: Ok / Some continue, Err / None break
             nm = strip_generics(callee_name(t) or "?")
